@@ -2,6 +2,7 @@
 from __future__ import annotations
 
 from harness import dist as D
+from harness import distmgr as MG
 
 ID = "C01"
 PROPS = "props/C01.v"
@@ -16,8 +17,12 @@ class C01Float(D.FloatStream):
     CLAUSES = ("C01_",)
 
 
+class C01Manager(MG.ManagerStream):
+    CLAUSES = ("C01_",)
+
+
 def streams():
-    return [C01Exact(), C01Float()]
+    return [C01Exact(), C01Float(), C01Manager()]
 
 
 ASSUMPTIONS = [
